@@ -43,12 +43,17 @@ def run_one(sid, tier="quick"):
 def main():
     ids = sys.argv[1:] or sorted(os.listdir(os.path.join(VERIF, "seeded")))
     bad = 0
-    for sid in ids:
-        if not os.path.isdir(os.path.join(VERIF, "seeded", sid)):
-            continue
-        res = run_one(sid)
-        print(json.dumps(res))
-        json.dump(res, open(os.path.join(VERIF, "seeded", sid, "result.json"), "w"), indent=1)
+    ids = [s for s in ids if os.path.isdir(os.path.join(VERIF, "seeded", s))]
+    jobs = int(os.environ.get("SEEDED_JOBS", "1"))
+    if jobs > 1:
+        from concurrent.futures import ThreadPoolExecutor
+        with ThreadPoolExecutor(jobs) as ex:
+            results = list(ex.map(run_one, ids))
+    else:
+        results = (run_one(s) for s in ids)
+    for res in results:
+        print(json.dumps(res), flush=True)
+        json.dump(res, open(os.path.join(VERIF, "seeded", res["id"], "result.json"), "w"), indent=1)
         if not res.get("detected"):
             bad += 1
     sys.exit(1 if bad else 0)
